@@ -11,6 +11,7 @@ STATUS = {
     'C17-4': ('obsolete', 'the text forms it relied on were replaced by d001810'),
     'C03-7': ('obsolete', 'its demonstration passes since e1c09b1 (the entry cell is re-read from the workbook)'),
     'C06-10': ('obsolete', 'its demonstration passes since 79f5947 (every emitted expression is checked against python\'s bracket limit)'),
+    'C10-7': ('obsolete', 'since 01af400 a plain date reaches the class as a date-time: the comparison of plain dates it changed is no longer reached through the public API'),
     'C16-5': ('not-kept', 'demands more than the statement (1 ulp beyond 15 significant digits)'),
     'C11-7': ('outside-asserted-domain', 'dates under AVERAGE: the statement does not say whether a date is a numeric cell'),
     'C09-12': ('changed-by-fix', 'since 30a138b a cell that holds an object is rejected at translation: the change now makes workbooks with array formulas untranslatable (C18 / C06) instead of putting an address into the text'),
